@@ -74,6 +74,7 @@ void wd_use()
     m.process_event(wd_in());
     m.process_event(wd_d());
     wd_d d; m.process_event(d);
+    const wd_e2 ce2{}; m.process_event(ce2);          // const lvalue submission of an event the root's Idle state defers
     m.process_event(wd_release());
     m.process_event(wd_e2());
     m.stop();
